@@ -520,6 +520,16 @@ struct EvalChecks {
             }
             // a failing init may corrupt the heap of the process (that is the defect): run every history in a
             // process of its own so that the damage cannot leak into later cases of this worker
+            static bool warmed = false;
+            if (!warmed) {
+                // one-time initialisation of the JIT happens here, in the worker, so that the per-history children inherit it
+                warmed = true;
+                try {
+                    V w;
+                    TR::init(w, {symbol("x")}, {symbol("x")}, 0);
+                } catch (...) {
+                }
+            }
             fflush(c.out);
             pid_t p = fork();
             if (p == 0) {
